@@ -13,8 +13,9 @@
 (*   db.go    Sync, Close                                    SyncCall CloseCall               *)
 (*                                                                         *)
 (* Sizes are abstract: every record occupies 1 unit except puts of a value *)
-(* in BigVals, which occupy Limit + 1 (a record that alone exceeds the     *)
-(* file-size limit).                                                       *)
+(* in BigVals, which occupy MaxLimit + 1 (a record that alone exceeds every *)
+(* file-size limit).  The limit is an option of each Open: lim is the      *)
+(* limit in force, chosen anew from Limits by every Open after the first.  *)
 (*                                                                         *)
 (* The constant Bug is a set of names of deviations that make the model    *)
 (* behave like the pinned tree did before the corresponding "fix:" commit; *)
@@ -25,7 +26,8 @@
 EXTENDS Integers, Sequences, FiniteSets, TLC, KVSem
 
 CONSTANTS Keys, Vals, BigVals,      \* key and value identities (positive integers); BigVals \subseteq Vals
-          Limit,                    \* DataFileSize in units
+          Limit,                    \* DataFileSize in units (of the first Open)
+          Limits,                   \* the limits a later Open may choose (Options.DataFileSize is per Open)
           MaxOps, MaxBatch,         \* fuel: client calls, staged operations per batch
           MaxFaults, MaxMerges, MaxRestarts,
           SyncAlways,               \* SyncStrategy = Always (otherwise No)
@@ -56,17 +58,19 @@ VARIABLES
   recok,    \* ghost: every recovery so far exposed an admissible mapping
   bk,       \* the last backup: [has, dir, view] (db.go Backup: every file's logical content, no lock, no merge directory)
   nextMid,  \* next mutation id (tags the records a call writes; ghost field mid of records)
-  nextBid, nops, nfaults, nmerges, nrestarts
+  nextBid, nops, nfaults, nmerges, nrestarts,
+  cfg       \* [lim |-> the file-size limit in force, maxlim |-> the largest limit used so far (ghost)]
 
 disk  == <<dir, dhint, mdir, durable>>
 ghost == <<acked, floor, inflight, recok, bk>>
 ctrs  == <<nextMid, nextBid, nops, nfaults, nmerges, nrestarts>>
 vars  == <<dir, dhint, mdir, durable, lock, st, active, index, total, reclaim, batch, merge, adopt,
-           pc, cur, acked, floor, inflight, recok, bk, nextMid, nextBid, nops, nfaults, nmerges, nrestarts>>
+           pc, cur, acked, floor, inflight, recok, bk, nextMid, nextBid, nops, nfaults, nmerges, nrestarts, cfg>>
 
 (* ---- records and files -------------------------------------------------- *)
 PUT == 0  DEL == 1  FIN == 2  TORN == 9
-Size(t, v) == IF t = PUT /\ v \in BigVals THEN Limit + 1 ELSE 1
+MaxLimit == CHOOSE x \in Limits \cup {Limit} : \A y \in Limits \cup {Limit} : y <= x
+Size(t, v) == IF t = PUT /\ v \in BigVals THEN MaxLimit + 1 ELSE 1
 Rec(t, k, v, bt, mid) == [t |-> t, k |-> k, v |-> v, bt |-> bt, s |-> Size(t, v), mid |-> mid]
 Fids == DOMAIN dir
 RECURSIVE SumS(_, _)
@@ -124,7 +128,7 @@ HintMaxFid(h) == IF h = <<>> THEN 0 ELSE MaxOf({h[i].pos.f : i \in 1..Len(h)})
 
 (* ---- I/O micro-steps ------------------------------------------------------ *)
 \* one append of records rs (one write call), with the rotation rule of appendLogRecord
-NeedRotate(sz) == Bytes(dir[active]) + sz > Limit
+NeedRotate(sz) == Bytes(dir[active]) + sz > cfg.lim
 AppendSteps(rs, rotate, syncAfter) ==
     (IF rotate THEN << [io |-> "sync"], [io |-> "create"] >> ELSE <<>>)
     \o << [io |-> "write", recs |-> rs] >>
@@ -139,6 +143,7 @@ Init ==
   /\ batch = NoBatch /\ merge = NoMerge /\ adopt = NoAdopt /\ pc = <<>> /\ cur = Idle
   /\ acked = <<>> /\ floor = 0 /\ inflight = NoInflight /\ recok = TRUE /\ bk = [has |-> FALSE]
   /\ nextMid = 1 /\ nextBid = 1 /\ nops = 0 /\ nfaults = 0 /\ nmerges = 0 /\ nrestarts = 0
+  /\ cfg = [lim |-> Limit, maxlim |-> Limit]
 
 (* ---- Put / Delete / Sync ---------------------------------------------------- *)
 PutBegin(k, v) ==
@@ -241,7 +246,7 @@ StagedPos(sg, k) == {i \in 1..Len(sg) : sg[i].k = k}
 TaggedRecs(sg) == [i \in 1..Len(sg) |-> Rec(KindOf(sg[i].v), sg[i].k, sg[i].v, batch.id, batch.mid)]
 \* batch.go flushStaged: one write of all staged records; (fix) rotate first if they do not fit
 FlushRotates(sg) == /\ ~Has("BatchOverfill") /\ sg # <<>> /\ Bytes(dir[active]) > 0
-                    /\ Bytes(dir[active]) + StagedBytes(sg) + 1 > Limit
+                    /\ Bytes(dir[active]) + StagedBytes(sg) + 1 > cfg.lim
 FlushSteps(sg) == AppendSteps(TaggedRecs(sg), FlushRotates(sg), batch.sync)
 FlushFile(sg) == IF FlushRotates(sg) THEN active + 1 ELSE active
 \* the write set of the whole batch so far (ghost)
@@ -264,7 +269,7 @@ BStage(k, v) ==
          hit == StagedPos(sg, k)
          newOps == Append(batch.ops, [k |-> k, v |-> v])
          nsz == Size(KindOf(v), v)
-         flushFirst(osz) == StagedBytes(sg) - osz + nsz + 1 > Limit
+         flushFirst(osz) == StagedBytes(sg) - osz + nsz + 1 > cfg.lim
          doFlush ==
            /\ pc' = FlushSteps(sg) \o << [io |-> "sync"], [io |-> "create"] >>
            /\ cur' = [op |-> "flush", mid |-> batch.mid, f |-> FlushFile(sg), then |-> [k |-> k, v |-> v]]
@@ -336,7 +341,7 @@ MergeScan ==
         LET r == dir[f][merge.ri]
             live == r.t = PUT /\ r.k \in Keys /\ index[r.k].f = f /\ index[r.k].o = merge.ri
             o == merge.out
-            rot == Bytes(mdir.files[o]) + r.s > Limit           \* appendLogRecord's rotation rule on the output
+            rot == Bytes(mdir.files[o]) + r.s > cfg.lim           \* appendLogRecord's rotation rule on the output
             o2 == IF rot THEN o + 1 ELSE o
             r2 == [r EXCEPT !.bt = IF Has("MergeKeepsBatchId") THEN r.bt ELSE 0]
         IN IF ~live THEN merge' = [merge EXCEPT !.ri = @ + 1] /\ UNCHANGED mdir
@@ -401,9 +406,10 @@ PowerLoss ==
   /\ UNCHANGED <<dhint, mdir, active, index, total, reclaim, acked, recok, bk, nextMid, nextBid, nops, nmerges, nrestarts>>
 
 \* Open, phase 1: take the lock; decide whether a finished merge must be adopted
-OpenLock ==
+OpenLock(newlim) ==
   /\ st = "down" /\ ~lock
   /\ lock' = TRUE /\ st' = "adopt"
+  /\ cfg' = [lim |-> newlim, maxlim |-> IF newlim > cfg.maxlim THEN newlim ELSE cfg.maxlim]
   /\ IF mdir.ex /\ mdir.marker.nm # 0 /\ ~Has("MarkerUnreadable")
      THEN adopt' = [ph |-> "files", i |-> 0, nm |-> mdir.marker.nm, cnt |-> mdir.marker.cnt, sub |-> "rm"]
      ELSE adopt' = [ph |-> "load", i |-> 0, nm |-> 0, cnt |-> 0, sub |-> "-"]
@@ -514,7 +520,8 @@ Backup ==
 Retry == /\ st = "failed" /\ st' = "down"
          /\ UNCHANGED <<disk, lock, active, index, total, reclaim, batch, merge, adopt, pc, cur, ghost, ctrs>>
 
-Next ==
+\* every action but Open leaves the configuration alone
+Core ==
   \/ \E k \in Keys, v \in Vals : PutBegin(k, v)
   \/ \E k \in Keys : DelBegin(k)
   \/ SyncCall \/ IoStep \/ Ack
@@ -522,7 +529,8 @@ Next ==
   \/ \E k \in Keys, v \in Vals \cup {Nil} : BStage(k, v)
   \/ BCommit
   \/ MergeBegin \/ MergeRm \/ MergeMk \/ MergeScan \/ MergeMark
-  \/ CloseCall \/ Crash \/ PowerLoss \/ OpenLock \/ AdoptStep \/ OpenLoad \/ Retry \/ Backup
+  \/ CloseCall \/ Crash \/ PowerLoss \/ AdoptStep \/ OpenLoad \/ Retry \/ Backup
+Next == (Core /\ UNCHANGED cfg) \/ \E nl \in Limits : OpenLock(nl)
 
 Spec == Init /\ [][Next]_vars
 
@@ -558,7 +566,7 @@ NeverFails  == st # "failed"
 AccountingExact == Quiescent => /\ reclaim >= 0 /\ reclaim <= total
                                 /\ total - reclaim = LiveBytes
 FileSizeRespected == \A f \in Fids : LET rs == dir[f] IN
-    \/ Bytes(rs) <= Limit \/ Len(rs) = 1 \/ (Len(rs) = 2 /\ rs[2].t = FIN)
+    \/ Bytes(rs) <= cfg.maxlim \/ Len(rs) = 1 \/ (Len(rs) = 2 /\ rs[2].t = FIN)
     \/ \E i \in 1..Len(rs) : rs[i].t = TORN
 
 \* C13: Always => every acknowledged plain record is flushed; a file is flushed before the engine rotates away;
